@@ -1,5 +1,5 @@
 SPECIFICATION MCSpec
-CONSTANTS MaxIn = 1  MaxOps = 4  MidRunChunks = TRUE  Bugs = {"stream_update_mid_block"}
+CONSTANTS MaxIn = 1  MaxOps = 4  MidRunChunks = TRUE  TinyInput = TRUE  Bugs = {"stream_update_mid_block"}
  Encs = {"stream", "mt", "raw", "block"}  Grants = {"big"}  Checks = {"crc"}  BSizes = {0}
 VIEW MCView
 INVARIANTS TypeOK NotBad DecodableLeGiven NoEmptyBlock SeqAgrees
